@@ -169,6 +169,22 @@ class CallMixin:
             else:
                 yield from self.inline(func, None, args, kw, st, fx, node, bound=False)
             return
+        if k == "attrgetter":
+            if len(args) != 1:
+                raise AnalysisError("attrgetter call at %s:%d not handled" % (fx.func.file, getattr(node, "lineno", 0)))
+            outs = []
+
+            def go(i, acc, s):
+                if i == len(f[1]):
+                    yield "ok", (acc[0] if len(acc) == 1 else ("tuple", tuple(acc))), s
+                    return
+                for r, t, s2 in self.get_attr(args[0], f[1][i], s, fx, node):
+                    if r == "raise":
+                        yield r, t, s2
+                    else:
+                        yield from go(i + 1, acc + [t], s2)
+            yield from go(0, [], st)
+            return
         if k == "closure":
             env, selfterm, fi = self._closure_env[f[2]]
             yield from self.inline(f[1], selfterm, args, kw, st, fx, node, outer_env=env, bound=False)
@@ -200,9 +216,16 @@ class CallMixin:
                 yield "raise", self.exc(st, "TypeError", "callLater"), st
                 return
             h = ("timer", st.uid())
-            self.emit(st, fx, "ARM", node, handle=h, delay=args[0], target=args[1], args=tuple(args[2:]), how="callLater",
+            tgt, eff = self._timer_target(args[1], tuple(args[2:]))
+            self.emit(st, fx, "ARM", node, handle=h, delay=args[0], target=tgt, args=eff, how="callLater",
                       delaynode=node.args[0] if node.args else None)
             yield "ok", h, st
+            return
+        if k == "partial":
+            yield from self.call(f[1], list(f[2]) + list(args), kw, st, fx, node)
+            return
+        if k == "lambda":
+            yield from self.call_lambda(f, args, st, fx, node)
             return
         if k == "ext":
             yield from self.call_ext(f[1], args, kw, st, fx, node)
@@ -297,9 +320,46 @@ class CallMixin:
                 st.heap[(o, fld)] = ("net", recv, fld)
             yield "ok", NONE, st
 
+    def _timer_target(self, tgt, args):
+        """(callable, effective arguments) of a timer callback: functools.partial is unwrapped, and what a closure captured from
+        the frame that made it (the free variables its body uses) counts as its arguments."""
+        if isinstance(tgt, tuple) and tgt and tgt[0] == "partial":
+            return self._timer_target(tgt[1], tuple(tgt[2]) + tuple(args))
+        if isinstance(tgt, tuple) and tgt and tgt[0] == "closure" and tgt[2] in getattr(self, "_closure_env", {}):
+            env, _, fi = self._closure_env[tgt[2]]
+            own = set(fi.locals)
+            free = []
+            for x in ast.walk(fi.node):
+                if isinstance(x, ast.Name) and isinstance(x.ctx, ast.Load) and x.id in env and x.id not in own and x.id not in ("self", fi.name) \
+                        and x.id not in free:
+                    free.append(x.id)
+            return tgt, tuple(args) + tuple(env[k] for k in free)
+        return tgt, tuple(args)
+
+    def call_lambda(self, f, args, st, fx, node):
+        """A lambda made on this path: its body is evaluated with its parameters bound (and what it captured)."""
+        lam, env = f[1], dict(f[2])
+        params = [a.arg for a in lam.args.args]
+        if len(args) != len(params) or lam.args.vararg or lam.args.kwarg or lam.args.defaults:
+            raise AnalysisError("lambda call at %s:%d not handled" % (fx.func.file, getattr(node, "lineno", 0)))
+        saved = st.env
+        st.env = dict(env)
+        st.env.update(saved)
+        for p, a in zip(params, args):
+            st.env[p] = a
+        for r, t, s in self.ev(lam.body, st, fx):
+            s.env = dict(saved)
+            yield r, t, s
+
     # ---- external library ------------------------------------------------------
     def call_ext(self, dotted, args, kw, st, fx, node):
         tail = dotted.split(".")
+        if tail[-1] == "partial" and args:
+            yield "ok", ("partial", args[0], tuple(args[1:])), st
+            return
+        if tail[-1] == "attrgetter" and args and all(is_const(a) and isinstance(a[1], str) for a in args):
+            yield "ok", ("attrgetter", tuple(a[1] for a in args)), st
+            return
         if dotted.endswith("defer.fail") or tail[-1] == "fail" and "defer" in dotted:
             d = ("dfr", st.uid(), "fail")
             self.emit(st, fx, "DEFNEW", node, dfr=d, how="fail", arg=args[0] if args else NONE)
@@ -323,8 +383,9 @@ class CallMixin:
             return
         if tail[-1] == "callLater" and "reactor" in dotted:
             h = ("timer", st.uid())
-            self.emit(st, fx, "ARM", node, handle=h, delay=args[0], target=args[1] if len(args) > 1 else NONE,
-                      args=tuple(args[2:]), how="reactor.callLater", delaynode=node.args[0] if node.args else None)
+            tgt, eff = self._timer_target(args[1] if len(args) > 1 else NONE, tuple(args[2:]))
+            self.emit(st, fx, "ARM", node, handle=h, delay=args[0], target=tgt,
+                      args=eff, how="reactor.callLater", delaynode=node.args[0] if node.args else None)
             yield "ok", h, st
             return
         if tail[-1] == "import_module" and "importlib" in dotted:
